@@ -8,8 +8,8 @@ CORR = "corr:comments (Model/Comments.v vs engine.Changelog.ChangedIntervals + c
 CORR_AD = "corr:astdiff (Model/AstDiff.v vs internal/astdiff + internal/diff, on the snapshots the verif hook renders at every step)"
 NOPOS = -(1 << 40)
 COND_NAMES = ["every declaration starts after NoPos and ends after it starts", "the declarations are in source order",
-              "every changed declaration's subtree lies within its extent", "the list's region starts after NoPos", "... and not after the first declaration",
-              "the file ends after every declaration starts", "no changed declaration's region ends before it starts"]
+              "every changed declaration's subtree lies within its extent (nodes have positions, lists of nodes hold nodes only)",
+              "the list's region starts after NoPos", "... and not after the first declaration", "the file ends after every declaration starts"]
 
 PATCHES = {
     "expr": "@@\nvar x expression\n@@\n-foo(x)\n+bar(x)\n",
